@@ -480,6 +480,7 @@ impl<'a> G<'a> {
                 4 => { self.p("\"d "); self.mvar(true); self.p("\""); }
                 5 => self.mvar(true),
                 6 => { self.d_inc(); self.user_call(0); self.depth -= 1; if !self.out.ends_with(')') { self.p(" w"); } }
+                7 if self.u.coin(1, 2) => { self.feat("statement-options-literal-trigger-char"); let x = self.pick(&["50%", "a%", "x&", "b&&"]); self.p(x); match self.u.below(6) { 0 => self.p("'q'"), 1 => self.p("=v"), 2 => self.p("/s"), 3 => self.p("/*c*/"), 4 => self.p("\"d\""), _ => {} } }
                 7 => { let x = self.pick(&["#1", "@2", "5", "+3", "a/b"]); self.p(x); }
                 8 => self.p("/*c;*/"),
                 _ => { self.d_inc(); self.builtin_call(0); self.depth -= 1; }
